@@ -73,6 +73,14 @@ type ChanObj struct {
 	// recvWaiting > 0 while the harness goroutine is blocked receiving on this channel and
 	// queued goroutines run: a send on an unbuffered channel then finds its receiver
 	recvWaiting int
+	// offer is set while the harness goroutine is blocked sending on this (unbuffered) channel
+	// and queued goroutines run: a receive by one of them takes the value
+	offer *sendOffer
+}
+
+type sendOffer struct {
+	val   Value
+	taken bool
 }
 
 type Cell struct {
